@@ -239,6 +239,15 @@ class Inst:
         self.hung = None
 
 
+def futex_word(inst):
+    """the address join / drop wait on: the clear-tid address the thread was cloned with (x86-64 raw clone: flags, stack, ptid, ctid, tls);
+    before a clone was seen, where the model's layout puts the word"""
+    ca = getattr(inst, "clone_args", None)
+    if ca and len(ca) > 3 and ca[3]:
+        return ca[3]
+    return inst.tsm[0] + 4 if inst.tsm else None
+
+
 def analyze_batch(recs, exited, lo, hi, main, specs, cfg, classes, textb, nlines, heap_before):
     """recs[lo:hi] = records between the batch's 'b' and 'e' markers (hi = len if the batch never ended).
     Returns (instances, problems(list of (kind, why)), stats)"""
@@ -375,7 +384,7 @@ def analyze_batch(recs, exited, lo, hi, main, specs, cfg, classes, textb, nlines
                 ptr, op = r["args"][1], r["args"][3] & 1
                 if op == 1 and cur.tsm and ptr == cur.tsm[0]:
                     cur.freeline = r["entry"]
-            elif r["name"] == "futex" and cur.tsm and r["args"][0] == cur.tsm[0] + 4:
+            elif r["name"] == "futex" and r["args"][0] == futex_word(cur):
                 cur.waits.append(r)
             elif r["name"] in ("mmap", "munmap", "mremap", "brk"):
                 stats["other_vm"] += 1
@@ -648,7 +657,16 @@ def judge_batch(bno, specs, insts, problems, stats, heap_before, heap_live, tb, 
         if inst.tsm and sp["class"] in classes:
             want = layout(*classes[sp["class"]])
             if (inst.tsm[1], inst.tsm[2]) != want[:2]:
-                bad.append(("layout", "id %d class %d: block allocated as %s, layout arithmetic gives %s" % (iid, sp["class"], inst.tsm[1:3], want[:2])))
+                vs, va = classes[sp["class"]]
+                size, al = inst.tsm[1], inst.tsm[2]
+                # what any sound layout needs, whatever the order of its members: room for the flag, the futex word and the value,
+                # aligned for the futex word and for the value
+                if al < max(4, va) or al & (al - 1) or size < 1 + 4 + vs:
+                    bad.append(("layout", "id %d class %d: block allocated as (size %d, align %d) cannot hold flag + futex word + a value of size %d align %d" % (
+                        iid, sp["class"], size, al, vs, va)))
+                else:
+                    # a different, possibly sound, layout: the model's arithmetic no longer describes the code (not a failing input)
+                    bad.append(("layout-model", "id %d class %d: block allocated as %s, the model's layout arithmetic gives %s" % (iid, sp["class"], inst.tsm[1:3], want[:2])))
     if tb["ended"] and tb.get("drops") and tb["drops"][0] != tb["drops"][1] and not any(k == "hang" for k, _ in bad):
         made, dropped = tb["drops"]
         bad.append(("value-drop", "%d values with a destructor were returned by closures of this batch, their destructor ran %d times (a value nobody made was "
@@ -879,9 +897,10 @@ def account(ctx, items, exe, pid_kinds=None, inject=None):
         ctx.hist("threads_per_batch", min(64, 1 << (len(it["specs"]) - 1).bit_length()))
         kinds = sorted({k for k, _ in it["judge"]})
         # `model-map`: the observation could not be mapped onto the model's events (an allocation / futex operation the mapping
-        # does not know).  That is a broken correspondence, not a failing input: reported as such, below.
-        mm = [w for k, w in it["judge"] if k == "model-map"]
-        kinds = [k for k in kinds if k != "model-map"]
+        # does not know); `layout-model`: the shared block has another (not unsound) size than the model computes.
+        # Both are a broken correspondence, not a failing input: reported as such, below.
+        mm = [w for k, w in it["judge"] if k in ("model-map", "layout-model")]
+        kinds = [k for k in kinds if k not in ("model-map", "layout-model")]
         if pid_kinds is not None:
             kinds_rel = [k for k in kinds if k in pid_kinds or k in ("probe", "heap")]
         else:
